@@ -204,7 +204,12 @@ def corrupt(rng, mode, c, root):
         if not cand:
             return None
         i = rng.choice(cand)
-        big = rng.choice([b"2147483648", b"99999999999999999999"]) if es[i]["kw"] != "regress-timeout" else rng.choice([b"2147483648 s", b"35791395 m", b"596524 h"])
+        # beyond int: just above INT_MAX, values that wrap into range modulo 2^32 or 2^64, very long literals;
+        # for timeouts also products that overflow
+        wraps = [b"2147483648", b"2147483649", b"4294967295", b"4294967296", b"4294967306", b"4294967297", b"6442450943", b"8589934592", b"9999999999",
+                 b"18446744073709551616", b"18446744073709551626", b"99999999999999999999", b"42949672960", b"4294967296000"]
+        big = rng.choice(wraps) if es[i]["kw"] != "regress-timeout" else rng.choice(
+            [b"2147483648 s", b"35791395 m", b"596524 h", b"4294967297 m", b"4294967296 s", b"4294967297 h", b"9999999999 s", b"71582789 m", b"1193047 h"])
         es[i] = dict(es[i], text=es[i]["kw"].encode() + b" " + big)
     elif kind == "missing-dir":
         cand = [i for i, e in enumerate(es) if e["kw"] in ("robsddir", "destdir", "bsd-srcdir", "canvas-dir", "bsd-objdir")]
